@@ -128,6 +128,10 @@ struct user_stream {
 };
 
 // ------------------------------------------------------------------ dump of what the real analyzer produced
+// sr: the entry's has_sr_conflict flag (0/1), or 2 when the tree under test has no such member (the flag is an implementation detail;
+// the oracles then take the conflict status from the reference and judge the diagnostics text and the behaviour only)
+template<class E> auto sr_flag_of(const E& e, int) -> decltype(uint8_t(e.has_sr_conflict)) { return e.has_sr_conflict ? 1 : 0; }
+template<class E> uint8_t sr_flag_of(const E&, long) { return 2; }
 struct CellDump { uint8_t kind; uint16_t arg; uint8_t sr; int16_t rule; };   // rule: source rule number of gi.rule_infos[arg] when arg is in range, else -1   // kind: ctpg parse_table_entry_kind numbering
 struct TableDump {
     int nstates = 0, ncols = 0;
@@ -290,7 +294,7 @@ struct Frame<NT_, T_, std::integer_sequence<int, N...>, std::integer_sequence<in
             }
             for (int c = 0; c < d.ncols; ++c) {
                 const auto& e = p->parse_table[s][c];
-                d.cells[(size_t)s * d.ncols + c] = CellDump{uint8_t(e.kind), e.arg, e.has_sr_conflict, int16_t(e.arg < P::rule_count ? p->gi.rule_infos[e.arg].r_idx : -1)};
+                d.cells[(size_t)s * d.ncols + c] = CellDump{uint8_t(e.kind), e.arg, sr_flag_of(e, 0), int16_t(e.arg < P::rule_count ? p->gi.rule_infos[e.arg].r_idx : -1)};
             }
         }
         d.nlex = 0; d.lex_trans.clear(); d.lex_rec.clear();
